@@ -182,6 +182,12 @@ func (f *Fosite) DefaultClientAuthenticationStrategy(ctx context.Context, r *htt
 		if err != nil {
 			return nil, errorsx.WithStack(err)
 		}
+		// The expiry is judged here against the same instant the replay memory uses to forget a jti: an
+		// assertion whose expiry instant has passed (including 'exp' values the claims validation treats
+		// as unset) must not be accepted, because its jti is no longer remembered.
+		if time.Unix(expiry, 0).Before(time.Now()) {
+			return nil, errorsx.WithStack(ErrInvalidClient.WithHint("The 'client_assertion' is expired, check if the expiry time is set correctly."))
+		}
 		if err := f.Store.SetClientAssertionJWT(ctx, jti, time.Unix(expiry, 0)); err != nil {
 			return nil, err
 		}
